@@ -21,6 +21,10 @@ namespace PolyVerif.Par
 def intRange (lo hi : Int) : List Int :=
   (List.range (hi - lo).toNat).map (fun (k : Nat) => lo + (k : Int))
 
+/-- the three branches of a `*ParallelWithPoolSize` method body -/
+inductive Path | panic | sequential | workers
+  deriving DecidableEq, Repr
+
 structure PartSpec where
   workers : Int → Int → Int
   goStart : Int → Int → Int → Int
